@@ -914,6 +914,7 @@ func (s *Translator) translateFunction(typedExpression *cypher.FunctionInvocatio
 				Function:   pgsql.FunctionSum,
 				Parameters: []pgsql.Expression{typeCastNumericArg},
 				CastType:   pgsql.Numeric,
+				Distinct:   typedExpression.Distinct,
 			})
 		}
 
@@ -929,6 +930,7 @@ func (s *Translator) translateFunction(typedExpression *cypher.FunctionInvocatio
 				Function:   pgsql.FunctionAvg,
 				Parameters: []pgsql.Expression{typeCastNumericArg},
 				CastType:   pgsql.Numeric,
+				Distinct:   typedExpression.Distinct,
 			})
 		}
 
